@@ -81,9 +81,13 @@ class World:
         self.ReactionS = ReactionS
         self.doms = [DomainS(n, 5) for n in 'abcd']
         self.cx = [ComplexS([d], ['.'], name='X' + d.name) for d in self.doms]
-        self.rx = {1: ReactionS(self.cx[:1], self.cx[1:2], 'open'),
-                   2: ReactionS(self.cx[:2], self.cx[2:3], 'bind21'),
-                   3: ReactionS(self.cx[:3], self.cx[3:4], 'condensed')}
+        # per arity: pairwise different reactants, and reactions with REPEATED reactants (A + A, A + A + B, A + A + A): the
+        # reaction order that the units must match is the number of reactants, not the number of different ones
+        c = self.cx
+        self.rx = {1: [ReactionS(c[:1], c[1:2], 'open')],
+                   2: [ReactionS(c[:2], c[2:3], 'bind21'), ReactionS([c[0], c[0]], c[2:3], 'bind21')],
+                   3: [ReactionS(c[:3], c[3:4], 'condensed'), ReactionS([c[0], c[0], c[1]], c[3:4], 'condensed'),
+                       ReactionS([c[0], c[0], c[0]], c[3:4], 'condensed')]}
 
 
 def impl_num(x):
@@ -100,7 +104,7 @@ def impl_op(w, utils, op):
             return impl_num(utils.convert_units(op[1], op[2], op[3]))
         if op[0] == 'units.rate':
             v, old, new, n = op[1], op[2], op[3], op[4]
-            r = w.rx[n]
+            r = w.rx[n][(len(repr(v)) + len(''.join(old)) + len(''.join(new))) % len(w.rx[n])]
             r.rate_constant = (v, '/' + '/'.join(old))
             c, u = r.rateformat('/' + '/'.join(new))
             if u != '/' + '/'.join(new):
@@ -252,7 +256,7 @@ def run(res, proof):
         res.count('flint')
         if not ok:
             res.violation('flint:%r' % (v,), {'op': ['flint', repr(v)]}, obs, 'numerically equal, int iff integral')
-    r = w.rx[2]
+    r = w.rx[2][1]          # the reaction with a repeated reactant
     for v in vals[:60]:
         for form, arg, exp in (('number', v, (v, None)), ('tuple1', (v,), (v, None)),
                                ('pair', (v, '/M/s'), (v, '/M/s')), ('pair-none', (v, None), (v, None))):
